@@ -232,6 +232,13 @@ where
                 let op_idx = find_op_of_comma(&res).ok_or_else(|| {
                     exerr!("could not find operator for comma, could be operator with more than 2 args (not supported), missing operator, or paren mismatch",)
                 })?;
+                if op_idx > 0 && matches!(res[op_idx - 1], ParsedToken::Paren(Paren::Close)) {
+                    // the operator has already been moved to its comma, i.e., this is a 2nd comma
+                    return Err(exerr!(
+                        "operators with more than 2 args are not supported, violated by '{:?}'",
+                        res[op_idx]
+                    ));
+                }
                 let op_at_comma = mem::replace(&mut res[op_idx], ParsedToken::Paren(Paren::Open));
                 depths_of_open_calls.push(open_paren_count);
                 res.push(ParsedToken::Paren(Paren::Close));
